@@ -172,13 +172,18 @@ Drop ==
 (* of the files afterwards ("poisoned") except that no call panics.  A      *)
 (* failed finalize leaves dirty set, so finalize can simply be called again.*)
 (***************************************************************************)
+\* A write that fails before one byte has reached either destination, on a live writer whose file header is
+\* already reserved, leaves the writer exactly where it was: the shape is NOT written, so it must not count for
+\* the header box, the lengths or the record numbers either (C05, C02 after a failed write).
+CleanFailure(k, p) == status = "live" /\ hType # 0 /\ k = 1 /\ p = 0
+
 WriteFails(s, k, p) ==
     /\ status \in {"live", "torn"} /\ s.t # 0
     /\ hType = 0 \/ hType = s.t
     /\ LET list == OpsOfWrite(hType = 0, hasShx, s.t, recNum, hLen, s)
        IN  /\ k \in 1..Len(list)
            /\ IssueOps(FailedPrefix(list, k, p))
-    /\ status' = "poisoned"
+    /\ status' = IF CleanFailure(k, p) THEN status ELSE "poisoned"
     /\ last' = [call |-> "write", res |-> "io", io |-> TRUE, req |-> 0, act |-> 0]
     /\ UNCHANGED << hasShx, hType, hLen, hBox, recNum, dirty, written >>
 
